@@ -98,7 +98,8 @@ def sample_module(ids):
     return f'---- MODULE RoutingSample ----\nSampleMeshIds == {{{body}}}\n====\n'
 
 
-SANITY = ('SubsequenceFormsAgree', 'DeviationsAreRejected', 'PairDeviationsAreRejected')
+SANITY = ('SubsequenceFormsAgree', 'DeviationsAreRejected', 'PairDeviationsAreRejected',
+          'RelaxableDeviationsAreRejected')
 
 
 def mc_cfg(emit=False, sanity=True, grid=False, **kw):
@@ -174,7 +175,7 @@ def generate(chk, ids, tag, workers=None, grid=False, **consts):
         b['div'] = c['div']
         j['batches'].append(b)
     for j in jobs.values():
-        j['batches'].sort(key=lambda b: json.dumps([b['reqs'], b['groups']], sort_keys=True))
+        j['batches'].sort(key=lambda b: json.dumps([b['reqs'], b['groups'], b.get('relax', [])], sort_keys=True))
     return jobs
 
 
@@ -206,6 +207,11 @@ def group_shape(b):
     return '+'.join(sorted(kinds)) + ':' + ('STRICT' if labs == {1} else 'LOOSE' if labs == {0} else 'MIXED')
 
 
+def relax_of(b):
+    """per synchronisation vector of the batch: 1 when it is written `relaxable: true`"""
+    return list(b.get('relax') or [0] * len(b['groups']))
+
+
 def kind(b):
     g = b['groups']
     n = len(b['reqs'])
@@ -219,6 +225,8 @@ def kind(b):
         return f'{n}-free'
     gs = {frozenset(x) for x in g}
     grouped = set().union(*gs)
+    if any(relax_of(b)):
+        return 'overlapping-pairs+relaxable' if len(gs) > 1 else 'group+relaxable'
     if len(gs) == 1:
         base = {2: 'pair', 3: 'triple'}.get(len(next(iter(gs))), 'group')
         if len(g) > 1:
@@ -366,10 +374,26 @@ class NetBench:
                 out.append((uid, lab))
         return out
 
+    # how the end points of a request appear in its own include list (style % 7): the list may be opened by the source
+    # transceiver and / or closed by the destination transceiver, each with a hop type of its own - the clean-up
+    # removes them silently, the request is the same (Routing.tla, head of the module)
+    ENDS = {1: (None, 'STRICT'), 2: ('STRICT', 'STRICT'), 4: ('LOOSE', None), 5: (None, 'LOOSE')}
+
+    def route_objects(self, r, style=0):
+        """hops_of(r) as the user may write them: with the request's own end points around the list"""
+        hops = self.hops_of(r, style)
+        first, last = self.ENDS.get(style % 7, (None, None))
+        if first:
+            hops = [(self.trx_of_site[r['s']], first)] + hops
+        if last:
+            hops = hops + [(self.trx_of_site[r['d']], last)]
+        return hops
+
     def service_json(self, b, bidir=True, style=0):
         """the batch as a service file.  The order of the route objects is carried by their `index` only: the indices
         are increasing but start at 0, 8 or 98 (style), and the objects are written in reverse order every other
-        style.  A synchronisation vector states the diversity the batch asks for (b['div'], default 'node link')."""
+        style.  A synchronisation vector states the diversity the batch asks for (b['div'], default 'node link')
+        and whether it is relaxable (b['relax'], default: not)."""
         reqs = []
         base = (0, 8, 98)[style % 3]
         for k, r in enumerate(b['reqs']):
@@ -379,7 +403,7 @@ class NetBench:
                  'path-constraints': {'te-bandwidth': {'technology': 'flexi-grid', 'trx_type': 'Voyager',
                                                        'trx_mode': 'mode 1', 'spacing': 50e9,
                                                        'path_bandwidth': 100e9}}}
-            hops = self.hops_of(r, style)
+            hops = self.route_objects(r, style)
             if hops:
                 objs = [{'explicit-route-usage': 'route-include-ero', 'index': base + i,
                          'num-unnum-hop': {'node-id': uid, 'link-tp-id': 'link-tp-id is not used', 'hop-type': lab}}
@@ -389,9 +413,10 @@ class NetBench:
         data = {'path-request': reqs}
         if b['groups']:
             div = b.get('div') or ['node link'] * len(b['groups'])
+            relax = relax_of(b)
             data['synchronization'] = [
                 {'synchronization-id': f'g{k + 1}',
-                 'svec': {'relaxable': False, 'disjointness': div[k],
+                 'svec': {'relaxable': bool(relax[k]), 'disjointness': div[k],
                           'request-id-number': [f'r{i}' for i in g]}} for k, g in enumerate(b['groups'])]
         return data
 
@@ -408,13 +433,14 @@ class NetBench:
                       'nb_channel': 80, 'power': 1e-3, 'tx_power': 1e-3,
                       'effective_freq_slot': [{'N': None, 'M': None}]}
             params.update(trx_mode_params(self.eq, 'Voyager', 'mode 1', True))
-            hops = self.hops_of(r, style)
+            hops = self.route_objects(r, style)
             if hops:
                 params['nodes_list'] = [u for u, _ in hops]
                 params['loose_list'] = [lab for _, lab in hops]
             rqs.append(PathRequest(**params))
         div = b.get('div') or ['node link'] * len(b['groups'])
-        dsjn = [Disjunction(disjunction_id=f'g{k + 1}', relaxable=False, link_diverse='link' in div[k],
+        relax = relax_of(b)
+        dsjn = [Disjunction(disjunction_id=f'g{k + 1}', relaxable=bool(relax[k]), link_diverse='link' in div[k],
                             node_diverse='node' in div[k], disjunctions_req=[f'r{i}' for i in g])
                 for k, g in enumerate(b['groups'])]
         return rqs, dsjn
@@ -423,17 +449,21 @@ class NetBench:
         """the real pipeline on one batch -> event for Trace_Routing (or {'exc': ...}); pick selects how the batch is
         written: every fifth through the API objects, the others as a service file (index base, order, expansion)"""
         ids = [f'r{k + 1}' for k in range(len(b['reqs']))]
+        again = pick % 9 == 7           # what-if loop: the same request objects are cleaned and routed a second time
         if pick % 5 == 4:
-            return self.run_service(None, ids, b, limit, api=lambda: self.api_objects(b, bidir, pick))
-        return self.run_service(self.service_json(b, bidir, pick), ids, b, limit)
+            return self.run_service(None, ids, b, limit, api=lambda: self.api_objects(b, bidir, pick), again=again)
+        return self.run_service(self.service_json(b, bidir, pick), ids, b, limit, again=again)
 
-    def run_service(self, data, ids, b, limit=None, api=None):
+    def run_service(self, data, ids, b, limit=None, api=None, again=False):
+        """again: the PathRequest / Disjunction objects go through correct_json_route_list and compute_path_dsjctn
+        a second time (the first computation leaves the destination at the end of every include list) and the SECOND
+        answer is the one that is judged: it must be an answer to the same batch"""
         from gnpy.tools.json_io import requests_from_json, disjunctions_from_json
         from gnpy.topology.request import (correct_json_route_list, deduplicate_disjunctions, requests_aggregation,
                                            compute_path_dsjctn, find_reversed_path)
         from gnpy.core.exceptions import DisjunctionError
         ev = dict(reqs=[{k: r[k] for k in ('s', 'd', 'inc', 'strict')} for r in b['reqs']], groups=b['groups'],
-                  err=0, res=[])
+                  relax=relax_of(b), err=0, res=[])
         import threading
         if threading.current_thread() is not threading.main_thread():
             limit = None                                          # alarms exist in the main thread only
@@ -450,6 +480,9 @@ class NetBench:
             rqs, dsjn = requests_aggregation(rqs, dsjn)
             try:
                 pths = compute_path_dsjctn(self.net, self.eq, rqs, dsjn)
+                if again:
+                    rqs = correct_json_route_list(self.net, rqs)
+                    pths = compute_path_dsjctn(self.net, self.eq, rqs, dsjn)
             except DisjunctionError:
                 ev['err'] = 1
                 return ev
@@ -655,8 +688,11 @@ def report(chk, pid, trace, meta, viols, origin):
                 sig = f'{origin}|{clause}|{where}|inc={shape(r)}'
             else:
                 sig = f'{origin}|{clause}|{kind(b).split("+")[0].split("(")[0]}|inc={group_shape(b)}'
+                if any(relax_of(b)):
+                    sig += '|with-relaxable-vector'
             chk.violation(sig, dict(network=trace['name'], links=trace['links'],
-                                    batch={k: b[k] for k in ('reqs', 'groups')}, oracle=info, clause=clause,
+                                    batch={k: b[k] for k in ('reqs', 'groups', 'relax') if k in b}, oracle=info,
+                                    clause=clause,
                                     all_failed_clauses=sorted(clauses), request=req_idx, observed=ev))
     return len(meta) - len(bad)
 
@@ -669,7 +705,8 @@ def report_exceptions(chk, excs, origin):
             b = x['batch']
             chk.violation(f'{origin}|exception|{x["exc"].split(":")[0]}|{x.get("where", "?")}',
                           dict(mesh=x['mesh'], kind=kind(b), include_lists=[shape(r) for r in b['reqs']],
-                               batch={k: b[k] for k in ('reqs', 'groups')}, exception=x['exc'], traceback=x['tb']))
+                               batch={k: b[k] for k in ('reqs', 'groups', 'relax') if k in b}, exception=x['exc'],
+                               traceback=x['tb']))
 
 
 def b2(chk, pid, jobs, origin='B2', keep=lambda b: True, extra=None, raman_every=8):
@@ -716,11 +753,12 @@ def b2(chk, pid, jobs, origin='B2', keep=lambda b: True, extra=None, raman_every
             stats['errors'] += ev['err']
             stats['strong'] += b['info'].get('strong', 0)
             stats['noweak'] += int(bool(b['groups']) and not b['info'].get('weak', 0))
+            stats['relaxable_unmet'] = stats.get('relaxable_unmet', 0) + int(bool(b['info'].get('unmet', 0)))
             stats['routes_behind_100_candidates'] = stats.get('routes_behind_100_candidates', 0) + \
                 sum(1 for x in b['info'].get('shorter', []) if x >= 100)
             for v in b['info'].get('verdict', []):
                 stats['verdicts'][v] = stats['verdicts'].get(v, 0) + 1
-            chk.case((t['name'], json.dumps([b['reqs'], b['groups']])),
+            chk.case((t['name'], json.dumps([b['reqs'], b['groups'], relax_of(b)])),
                      nontrivial=bool(b['groups']) or any(r['inc'] for r in b['reqs']))
     return stats, traces, metas
 
@@ -872,6 +910,8 @@ def random_batches(bench, rng, count, groups=True, on_route=False, max_inc=2):
             if k % 6 == 5:
                 r3 = one()
                 out.append(dict(reqs=[r1, r2, r3], groups=[[1, 2], [2, 3]] if k % 12 == 11 else [[1, 2, 3]]))
+                if k % 24 == 23:                      # one of the two overlapping vectors is written relaxable
+                    out[-1]['relax'] = [(k // 24) % 2, 1 - (k // 24) % 2]
             else:
                 out.append(dict(reqs=[r1, r2], groups=[[1, 2]], div=[rng.choice(['node link', 'link', 'node'])]))
         else:
@@ -904,7 +944,7 @@ def planning_trace(bench, services_file, name):
             reqs.append(dict(s=bench.trx_site[r.source], d=bench.trx_site[r.destination], inc=inc,
                              strict=[int(h == 'STRICT') for h in r.loose_list], id=str(r.request_id)))
         groups = [[ids.index(str(x)) + 1 for x in d.disjunctions_req] for d in dsjn]
-        box.update(reqs=reqs, groups=groups)
+        box.update(reqs=reqs, groups=groups, relax=[int(d.relaxable is not False) for d in dsjn])
         try:
             pths = orig(network, equipment_, rqs, dsjn)
         except DisjunctionError:
@@ -933,5 +973,5 @@ def planning_trace(bench, services_file, name):
     if any(c is None for r in box['reqs'] for c in r['inc']):
         raise Machinery(f'{name}: include node outside ROADMs/fibres in the shipped services')
     ev = dict(reqs=[{k: r[k] for k in ('s', 'd', 'inc', 'strict')} for r in box['reqs']], groups=box['groups'],
-              err=box['err'], res=box.get('res', []))
+              relax=box['relax'], err=box['err'], res=box.get('res', []))
     return ev
